@@ -33,6 +33,10 @@ CHECKS = {
           "Every row is executed at the FeelNumber API level and as a FEEL expression; the oracle recomputes each one (exactly; exp, log and inexact powers within 2 ulp; modulo by exact rational arithmetic) and requires null exactly where the result is undefined or out of range, and never an infinite or NaN value.",
           "Trusts libmpdec (CPython decimal) as decimal128. Underflow to subnormal/zero and non-integer scales are left unspecified and not compared. Operands off the lattice are not covered.",
           "DESIGN.md §4 C02"),
+  "C03": ("bounded exhaustive enumeration of decision tables, each through both construction paths (generated DMN XML -> model evaluator; DecisionTable struct -> build_decision_table_evaluator): hit-policy family = every rule count 0..4 (5 in thorough) x every output assignment over a 3-value alphabet x 11 hit policies x 1..3 output clauses x default present/absent x output values present/absent x every match vector; matching family = every 1-input table of up to 3 rules over an 11-entry alphabet (with and without allowed input values), 2-input tables over a 5-entry alphabet, 3-4 input tables, x an 8-value input alphabet",
+          "Each (table, input) is evaluated on both paths; the two results must be equal and equal to the reference (entry predicates written in Rust, hit-policy table of DMN 8.2.10: U/A/F/P single result, R/O/C lists, aggregates, default output for every policy, contexts keyed by component names, priorities lexicographic over the clauses' own output values).",
+          "Trusts the reference in engines/c03.rs. `-` on a null input, not(..) on values of another kind, P/O without output values, aggregation over several clauses and partially defined defaults are left unspecified. Tables beyond 5 rules / 4 inputs and entry kinds outside the alphabet are outside the bound.",
+          "DESIGN.md §4 C03"),
   "C05": ("crash-isolated bounded exhaustive enumeration in two build profiles (release; release with overflow checks and debug assertions): all token strings up to length 3 (quick) / 4 (thorough) over a 45-token alphabet x 7 parser entry points x 2 parsing scopes; every single-character edit of every expression harvested from the repository's tests; nesting towers to depth 200 of 21 constructs; every built-in x every argument tuple over a 30-value extreme alphabet; iteration forms with boundary ranges",
           "Each case is parsed (and evaluated when it parses) in a worker process that announces the case index in a memory-mapped file before running it under catch_unwind; a worker that panics, dies by a signal or abort, or makes no progress within the stall limit is attributed to that case and restarted behind it. The verdict is: no case of the enumerated space crashes or hangs, in either profile.",
           "Values are not judged. Multi-edit corruptions and token strings beyond the length bound are outside the bound; the stall limit is 8 s (quick) / 30 s (thorough); worker address space is limited to 4 GiB.",
